@@ -10,7 +10,7 @@ Scheme == <<104, 116, 116, 112>>            \* "http"
 Host == <<104>>                              \* "h"
 RepQ == <<107, 61, 49, 38, 107, 61, 50>>          \* "k=1&k=2": a repeated key, to be carried over verbatim
 RepR == <<116, 61, 120, 38, 116, 61, 121>>        \* "t=x&t=y"
-BasePaths == {<<>>, <<SL>>, <<SL, a>>, <<SL, a, SL>>, <<SL, a, SL, b>>, <<SL, a, SL, b, SL>>, <<SL, a, SL, b, SL, 99>>, <<SL, a, SL, SL, b>>}
+BasePaths == {<<SL, 37, 50, 53, 52, 49, SL, b>>, <<>>, <<SL>>, <<SL, a>>, <<SL, a, SL>>, <<SL, a, SL, b>>, <<SL, a, SL, b, SL>>, <<SL, a, SL, b, SL, 99>>, <<SL, a, SL, SL, b>>}
 (* authorities with userinfo and port, an IP literal with port, and the scheme's default port written out *)
 UserPort == <<117, 58, 112, 64, 104, 58, 56, 48, 56, 48>>      \* "u:p@h:8080"
 V6Port == <<91, 58, 58, 49, 93, 58, 56, 49>>                  \* "[::1]:81"
@@ -20,6 +20,9 @@ UserOnly == <<117, 64, 104>>                                   \* "u@h"
 IdnSharp == <<117, 64, 115, 116, 114, 97, 223, 101, 46, 120, 58, 56, 49>>      \* "u@stra\u00dfe.x:81"
 IdnSigma == <<955, 962, 46, 120>>                                               \* "\u03bb\u03c2.x"
 IdnWide == <<65352, 46, 120>>                                                   \* "\uff48.x"
+(* "%2541": an escaped percent sign followed by "41" - decoding it twice gives "A" *)
+Pct41 == <<37, 50, 53, 52, 49>>
+PctPath == <<SL, a>> \o Pct41 \o <<SL, DOT, DOT, SL, 99>> \o Pct41
 Bases == {[scheme |-> <<Scheme>>, auth |-> <<Host>>, path |-> p, query |-> q, frag |-> f] :
             p \in BasePaths, q \in {<<>>, << <<113>> >>, << RepQ >>}, f \in {<<>>, << <<102>> >>}}
          \cup {[scheme |-> <<Scheme>>, auth |-> <<au>>, path |-> p, query |-> q, frag |-> <<>>] :
@@ -38,6 +41,10 @@ QF == {<< << RepR >>, <<>> >>, << <<>>, <<>> >>, << << <<121>> >>, <<>> >>, << <
 Refs == {[scheme |-> <<>>, auth |-> <<>>, path |-> p, query |-> qf[1], frag |-> qf[2]] : p \in RefPaths, qf \in QF}
     \cup {[scheme |-> << <<102, 116, 112>> >>, auth |-> << au >>, path |-> p, query |-> <<>>, frag |-> <<>>] :
              au \in {<<120>>, <<102, 97, 223, 46, 120>>}, p \in {<<>>, <<SL, a, SL, DOT, DOT, SL, b>>}}
+    (* (escapes are compared fully quoted, which would also IDNA-encode the other host: with the ASCII host only) *)
+    \cup {[scheme |-> << <<102, 116, 112>> >>, auth |-> << <<120>> >>, path |-> PctPath, query |-> <<>>, frag |-> <<>>]}
+    (* an absolute reference with query and fragment, escapes of "%" in all three *)
+    \cup {[scheme |-> << <<102, 116, 112>> >>, auth |-> << <<120>> >>, path |-> <<SL, a>>, query |-> << <<107, 61>> \o Pct41 >>, frag |-> << Pct41 >>]}
 Refs2 == << <<>>, <<DOT, DOT, SL, b>>, <<SL, b>>, <<a>>, <<DOT>> >>
 (* second reference for the chaining law, varied with the first *)
 R2 == [scheme |-> <<>>, auth |-> <<>>, path |-> Refs2[((Len(R.path) + Len(B.path)) % 5) + 1], query |-> <<>>, frag |-> <<>>]
